@@ -57,8 +57,7 @@ Print Assumptions C11_accepted_type_is_rendering.
 
 (* tie: the functions this property's model describes by hand (not by translation) still have the pinned text; an
    edit to one of them breaks this obligation and sends the check searching for a failing input *)
-From VL Require Import ShapeFacts.
 From VLG Require Import ShapeGen.
 Theorem C11_modelled_code_is_the_pinned_text : shapes_for_C11 = true.
-Proof. exact shapes_C11_ok. Qed.
+Proof. vm_compute. reflexivity. Qed.
 Print Assumptions C11_modelled_code_is_the_pinned_text.
